@@ -1067,13 +1067,16 @@ DLLIMPORT cfg_value_t *cfg_setopt(cfg_t *cfg, cfg_opt_t *opt, const char *value)
 			return NULL;
 		}
 
+		s = strdup(s);
+		if (!s)
+			return NULL;
 		val = cfg_setopt_slot(cfg, opt, value);
-		if (!val)
+		if (!val) {
+			free((void *)s);
 			return NULL;
+		}
 		free(val->string);
-		val->string = strdup(s);
-		if (!val->string)
-			return NULL;
+		val->string = (char *)s;
 		break;
 
 	case CFGT_SEC: {
